@@ -29,6 +29,19 @@ def inst(name):
     return ('inst', name)
 
 
+import io as _io
+import pathlib as _pl
+_BUILTIN_METHOD_NAMES = set()
+for _t in (dict, list, tuple, set, frozenset, str, bytes, bytearray, int, float, complex, _io.TextIOWrapper, _io.BufferedReader,
+           _io.BufferedWriter, _io.BytesIO, _pl.Path, type(iter(())), type((x for x in ()))):
+    _BUILTIN_METHOD_NAMES |= set(dir(_t))
+# NumPy arrays / memmaps / mmap / tarfile objects (names only; nothing is imported from numpy)
+_BUILTIN_METHOD_NAMES |= {'tofile', 'tolist', 'tobytes', 'astype', 'reshape', 'flush', 'close', 'copy', 'view', 'fill', 'item',
+                          'squeeze', 'transpose', 'ravel', 'flatten', 'byteswap', 'newbyteorder', 'sum', 'min', 'max', 'all', 'any',
+                          'add', 'extractall', 'getmembers', 'seek', 'tell', 'truncate', 'read', 'write', 'open', 'append',
+                          'update', 'warn', 'debug', 'info', 'warning', 'error', 'archive'}
+
+
 class Resolver:
     """Types are computed by a global round-based fixpoint (no recursion):
     each round recomputes every function environment, return/yield type,
@@ -393,6 +406,11 @@ class Resolver:
                 return out
             if d and head in EXT_MODULES:
                 return [('ext', d)]
+            # receiver of unknown type: a method name that exactly one repo class defines and that no built-in container,
+            # string, file, path or array type has can only be that method (may-call edge)
+            owners = self._owners_by_name().get(f.attr, [])
+            if len(owners) == 1 and f.attr not in _BUILTIN_METHOD_NAMES and not (f.attr.startswith('__') and f.attr.endswith('__')):
+                return [('repo', owners[0])]
             return [('ext', f'?.{f.attr}')]
         if isinstance(f, ast.Subscript):
             # registry call: table[key](...)
@@ -412,6 +430,16 @@ class Resolver:
                             return out
             return [('ext', '?[]()')]
         return [('ext', '?()')]
+
+    def _owners_by_name(self):
+        if not hasattr(self, '_owners'):
+            self._owners = {}
+            for m in self.repo.modules.values():
+                for c in m.classes.values():
+                    for nm, fn in c.methods.items():
+                        if not fn.is_property:
+                            self._owners.setdefault(nm, []).append(fn)
+        return self._owners
 
     # implicit calls: property loads, setters, dunder protocol
     def implicit_calls(self, func):
